@@ -276,6 +276,12 @@ func DrawBundle(c *core.Ctx, maxEx int, withSigs bool) *LBundle {
 func drawVariantSet(c *core.Ctx, lb *LBundle, u string, uniq *int) {
 	axisNames := []string{"Accept-Language", "Accept-Encoding"}
 	axisVals := [][]string{{"en", "fr", "ja"}, {"gzip", "br", "identity"}}
+	if c.Chance("var.quotedValues", 1, 4) {
+		// values written as quoted strings, which need not be token-shaped
+		axisNames = []string{"DPR", "Accept-Language"}
+		axisVals = [][]string{{`"1"`, `"2"`, `"1.5"`}, {`"en"`, `"fr-CA"`, `"x y"`}}
+		c.Probe("variants: quoted-string values")
+	}
 	nax := c.Int("var.naxes", 1, 2)
 	var axes [][]string
 	var parts []string
